@@ -78,6 +78,7 @@ struct c13 {
     bool use_owner;
     /* reference automaton */
     bool live, started, status;
+    bool status0_seen;      /* set_status(0) was called on this pump: loop keep-alive is then outside C13 (see DESIGN) */
     int nb;
     /* expected numbers of back-end calls so far (used by the mock) */
     int exp_start, exp_stop, exp_restart;
@@ -256,6 +257,7 @@ static void c13_op_set_status(struct c13 *c, bool v)
     char what[24];
     snprintf(what, sizeof what, "set_status(%d)", v);
     c->status = v;
+    if (!v) c->status0_seen = true;
     c->flex = was;      /* upump_common may cycle real_stop(old) + real_start(new) */
     if (was) CLS(CL_SETSTATUS_ACTIVE);
     if (!v) CLS(CL_NONBLOCKING);
@@ -425,7 +427,7 @@ static void c13_new_life(struct c13 *c, uint8_t cfg)
     c->use_owner = !(cfg & 8);
     c->variant = (cfg >> 4) & 3;
     c->hash = vp_hash_mix(c->hash, 0x1000 | (cfg & 0x3f));
-    c->started = false; c->status = true; c->nb = 0;
+    c->started = false; c->status = true; c->nb = 0;   /* status0_seen is per loop (per case): a reference count upset by a status-0 pump outlives it */
     c->pending_chg = false;
     memset(c->blk, 0, sizeof c->blk);
     c->owner_dead_calls = 0; c->owner_release_pending = false;
